@@ -183,16 +183,18 @@ fn fin(mut rep: Reporter, cfg: &RunCfg, level: &str, rule: &str, assumptions: &[
     crate::pinned::run_pinned(&cfg.property, &mut rep);
     let probes = match cfg.property.as_str() {
         "C02" => " || forked drain_and_reseed probe every 40th step (existing pool or a fresh high-fee pool: provide, churn swaps, every holder withdraws all, re-seed, leave), each forked message judged by the same clauses.",
-        "C07" => " || forked many_farms_probe every 400th step (limit raised to 14, 13 farms with automatic and explicit identifiers on one LP token, three epochs, every staker claims), fed to the ledger and judged by the same clauses; long_history_probe part 3: a farm claimed to exactly zero and a late joiner with an older claim cursor.",
+        "C07" => " || forked many_farms_probe every 400th step (limit raised to 14, 13 farms with automatic and explicit identifiers on one LP token, three epochs, every staker claims), fed to the ledger and judged by the same clauses; long_history_probe part 3: a farm claimed to exactly zero and a late joiner with an older claim cursor; at every farm creation no staker of that LP token may already have claimed through the new farm's first epoch.",
         "C11" => " || forked drained_farm_probe every 200th step (fresh pool with one staker, divisible budget claimed to exactly zero, close by owner / contract owner / on the way of a creation, creations up to the limit), judged by the same clauses; transfers compared netted per (from, to, denom).",
         "C12" => " || every simple route is also re-executed with minimum_receive in {quote, quote-1, quote/2, 0} and another receiver: quoted amount each time; one quote/swap fork in six first switches the pool's deposits and/or withdrawals off.",
         "C13" => " || every executed route (any shape) is re-run from its pre-state with minimum_receive = delivered (must execute, same output) and delivered + 1 (must fail as a whole); an executed stableswap trade whose fee shares alone exceed the tolerance is over the limit under any reading of the pool price; forked lopsided_deposit_probe every 25th step (fresh constant-product pool at a base-unit ratio of 1e-21..1e-14 in either denom order, six off-ratio deposits under tolerances 0.1%..100%).",
         "C17" => " || one toggle in three also restates current values of the other configuration fields in the same message.",
         "C19" => " || kernel amplifications 1..u64::MAX; one case in twelve has reserves at or beyond the 128-bit normalisation edge (refusal path).",
-        "C04" => " || transfers compared netted per (kind, from, to, denom); the only transfer a swap may take from its sender is the first hop's offer (one swap in 25 carries another coin); the protocol fee goes to the collector configured in the pre-state.",
-        "C09" => " || the penalty is recovered from what each party ends up with (independent of how transfers are batched); the fee collector is the one configured at the time of the exit, and one forked exit probe in three first re-points it at the owner of an active farm.",
+        "C04" => " || transfers compared netted per (kind, from, to, denom); the only transfer a swap may take from its sender is the first hop's offer (one swap in 25 carries another coin); the protocol fee goes to the collector configured in the pre-state; forked lp_pool_probe every 120th step (a pool holding another pool's LP token, all four fees, swaps into and out of the factory denom).",
+        "C09" => " || the penalty is recovered from what each party ends up with (independent of how transfers are batched); the fee collector is the one configured at the time of the exit, and one forked exit probe in three first re-points it at the owner of an active farm; undefined_epoch_probe every 60th step (genesis moved ahead: an executed exit is judged against the farms active when epochs were last defined).",
+        "C03" => " || one there-and-back trip in three sends each leg as one routed message of 2-5 hops.",
+        "C10" => " || forked many_snapshots_probe (twelve top-ups in twelve epochs without a claim, then every open position of that staker leaves through the emergency exit).",
         "C16" => " || forked reuse_probe every 40th step: a taken explicit identifier requested again (same assets, other order, other assets, other count/type) under the faithful and under a lenient token factory; must be refused and leave the pool unchanged.",
-        "C08" => " || the forked probe also sends locked deposits naming the probed position as stored and as typed (without the prefix), through its own pool and another one, from strangers and the owner.",
+        "C08" => " || the forked probe also sends locked deposits naming the probed position as stored and as typed (without the prefix), through its own pool and another one, from strangers and the owner (a deposit into a pool of another LP token must never change a position); after unlocking, the plain withdrawal must also succeed while the epoch manager reports no current epoch.",
         _ => "",
     };
     let rule = format!("{rule}{probes}{}{}", if rule.contains("W-pool") { WPOOL_NOTE } else { "" }, if rule.contains("W-farm") { WFARM_NOTE } else { "" });
